@@ -313,9 +313,11 @@ def lex_continue(
     # Since Numeric objects can begin with a reserved
     # character, the reserved characters may split up
     # the lexeme.
+    # The trailing zero lets a sign that is followed by a decimal point
+    # (e.g. "+.5") be recognized as the start of a number, too.
     if (
         char in g.numeric_start_chars
-        and Token(char + next_char, grammar=g).is_numeric()
+        and Token(char + next_char + "0", grammar=g).is_numeric()
     ):
         return True
 
